@@ -150,9 +150,20 @@ func Load(repo, goarch string) (*Ctx, error) {
 			}
 			return b
 		}
-		// renamed declarations are read under their reference names (rename.go); up to three rounds (types first)
-		for round := 1; round <= 3; round++ {
-			ov, notes := undoRenames(mod, pkgs[0].Fset, readSrc)
+		// renamed declarations are read under their reference names (rename.go); up to three rounds (types first);
+		// before that, reference fields grouped into a new nested struct are read as fields of the struct itself (flatten.go)
+		for round := -1; round <= 3; round++ {
+			var ov map[string][]byte
+			var notes []string
+			if round <= 0 {
+				ov, notes = flattenNested(mod, pkgs[0].Fset, readSrc)
+				if len(ov) == 0 {
+					round = 0
+					continue
+				}
+			} else {
+				ov, notes = undoRenames(mod, pkgs[0].Fset, readSrc)
+			}
 			if len(ov) == 0 {
 				break
 			}
